@@ -43,9 +43,20 @@ RECURSIVE FromFields(_, _, _, _)
 ResetHolders(M, obj) ==
   St([n \in DOMAIN obj.f |-> IF n \in Range(M.oneofs) THEN Nil ELSE obj.f[n]])
 
-\* body of a message: holders reset, then the fields
+\* nullable embedded messages whose children are all primitive are reset as well (resettableEmbeds)
+EmbedIdx(M) == {i \in DOMAIN M.fields : M.fields[i].embed # ""}
+ResettableParents(M) ==
+  {pp \in {Front(M.fields[i].gopath) : i \in EmbedIdx(M)} :
+     \A i \in EmbedIdx(M) : Front(M.fields[i].gopath) = pp => M.fields[i].kind = "prim"}
+RECURSIVE ResetPaths(_, _)
+ResetPaths(obj, pps) ==
+  IF pps = <<>> THEN obj
+  ELSE ResetPaths(IF CanSet(obj, Head(pps)) THEN SetPath(obj, Head(pps), Nil) ELSE obj, Tail(pps))
+ResetEmbeds(M, obj) == IF Q("embedNeverReset") THEN obj ELSE ResetPaths(obj, SetToSeq(ResettableParents(M)))
+
+\* body of a message: holders (and resettable embedded parents) reset, then the fields
 FromBody(M, tf, obj) ==
-  FromFields(M, 1, tf, [obj |-> ResetHolders(M, obj), dg |-> <<>>, pn |-> FALSE])
+  FromFields(M, 1, tf, [obj |-> ResetEmbeds(M, ResetHolders(M, obj)), dg |-> <<>>, pn |-> FALSE])
 
 FromPrimField(F, tf, acc) ==
   LET a == Lookup(tf, F.attr)
